@@ -840,3 +840,32 @@ class PeerTable:
 
     def snapshot(self):
         return dict(self.table)
+
+
+# --------------------------------------------------------------------------------------------
+# RFC 7606 section 3 (g): repeated attributes (added for C03)
+# --------------------------------------------------------------------------------------------
+
+
+def drop_duplicate_attrs(body: bytes) -> bytes:
+    """The UPDATE body a receiver works on after applying RFC 7606 section 3 (g): 'If any attribute
+    other than MP_REACH_NLRI / MP_UNREACH_NLRI appears more than once in the UPDATE message, then all
+    the occurrences of the attribute other than the first one SHALL be discarded and the UPDATE message
+    will continue to be processed.'  A repeated MP_REACH / MP_UNREACH is left in place (decode_update
+    then refuses it, as the RFC asks).  Raises RefError when the body does not even split."""
+    if len(body) < 4:
+        raise RefError(3, 1, 'UPDATE too short')
+    wlen = struct.unpack('!H', body[:2])[0]
+    if 2 + wlen + 2 > len(body):
+        raise RefError(3, 1, 'withdrawn routes length overruns')
+    alen = struct.unpack('!H', body[2 + wlen : 4 + wlen])[0]
+    if 4 + wlen + alen > len(body):
+        raise RefError(3, 1, 'attribute length overruns')
+    seen = set()
+    kept = b''
+    for flags, code, value in walk_attrs(body[4 + wlen : 4 + wlen + alen]):
+        if code in seen and code not in (MP_REACH, MP_UNREACH):
+            continue
+        seen.add(code)
+        kept += encode_attr(code, value, flags=flags, extended=bool(flags & F_EXTLEN))
+    return body[: 2 + wlen] + struct.pack('!H', len(kept)) + kept + body[4 + wlen + alen :]
